@@ -11,7 +11,7 @@ import (
 
 func init() {
 	register("C11",
-		"Decides the dispatch shape of the poller (epoll handler and its kqueue sibling) on every path: slot callbacks are written only by the initialisers and reset; the hang-up helper queues OnHup, deregisters (PollDetach) and only then releases the token, and OnHup values are invoked only by the goroutine started after the batch; every hang-up verdict has a reason (I/O error, hang-up with nothing read, error-queue probe not EAGAIN) and after it nothing else touches that slot in the iteration; with IN and HUP both set and a connection slot, readall precedes the hang-up decision, which requires totalRead==0; InputAck/OutputAck receive exactly the counts ioread/iosend returned and follow them on every path; the close message closes both poller descriptors, releases the token and makes Wait return; the eventfd is read before the trigger flag is reset. Not decided: what the kernel reports, ordering between descriptors.",
+		"Decides the dispatch shape of the poller (epoll handler and its kqueue sibling) on every path: slot callbacks are written only by the initialisers and reset; the hang-up helper queues OnHup, deregisters (PollDetach) and only then releases the token, and OnHup values are invoked only by the goroutine started after the batch; every hang-up verdict has a reason (I/O error, hang-up with nothing read, error-queue probe not EAGAIN) and after it nothing else touches that slot in the iteration; with IN and HUP both set and a connection slot, readall precedes the hang-up decision, which requires totalRead==0; InputAck/OutputAck receive exactly the counts ioread/iosend returned and follow them on every path; the close message closes both poller descriptors, releases the token and makes Wait return; the eventfd is read before the trigger flag is reset. The epoll interest mask per poll event has the bits that event needs; the event array is not replaced between EpollWait and the dispatch of its batch; ioread/iosend report (0,nil) on EAGAIN. Not decided: what the kernel reports, ordering between descriptors.",
 		[]string{"the kernel reports events as documented", "sync/atomic is linearizable"},
 		func(r *Run) {
 			cfgs := []string{"linux", "darwin"}
